@@ -113,6 +113,18 @@ def pointee_size(t):
     return None
 
 
+class OutOfBounds(Exception):
+    def __init__(self, access):
+        Exception.__init__(self, "access outside a bounded buffer")
+        self.access = access
+
+
+def _wrap_off(off):
+    """pointer arithmetic is address arithmetic modulo 2^64: an offset of 2^64 - k is the address k bytes in front"""
+    off &= (1 << 64) - 1
+    return off - (1 << 64) if off >= (1 << 63) else off
+
+
 def wrap(v, t):
     if not isinstance(v, int):
         return v
@@ -861,6 +873,10 @@ class Interp:
                 self.unknown_mem.append((p.base, kind, node))     # (a lookup in a const table of the program is not a buffer access)
             return
         self.acc.append(Access(p.base, p.off, p.off + size, kind, node, masked))
+        b = getattr(self, "bounds", None)
+        if b is not None and p.base in b and size > 0 and (p.off < b[p.base][0] or p.off + size > b[p.base][1]):
+            # the rule asked to stop at the first access outside a buffer it handed in (what follows is not C any more)
+            raise OutOfBounds(self.acc[-1])
 
     def ev(self, e, env, fn, depth):
         if e is None:
@@ -922,6 +938,18 @@ class Interp:
             return U
         if k == "IntegerLiteral" or k == "CharacterLiteral":
             return e.get("v")
+        if k == "StringLiteral" and self.heap is not None and isinstance(e.get("v"), str):
+            # a string literal is an object of its own: its bytes and the terminating NUL
+            base = "lit:%d" % e.i
+            try:
+                bs = e.get("v").encode("utf-8")
+            except Exception:
+                return U
+            if (base, len(bs)) not in self.heap:
+                for i_, b_ in enumerate(bs):
+                    self.heap[(base, i_)] = b_
+                self.heap[(base, len(bs))] = 0
+            return Ptr(base, 0, 1)
         if k == "UnaryOperator":
             return self.unary(e, env, fn, depth)
         if k in ("BinaryOperator", "CompoundAssignOperator"):
@@ -1211,11 +1239,11 @@ class Interp:
         if isinstance(a, Ptr) and isinstance(b, int) and op in ("+", "-"):
             if not isinstance(a.off, int):
                 return a
-            return Ptr(a.base, a.off + (b if op == "+" else -b) * (a.esz or 1), a.esz)
+            return Ptr(a.base, _wrap_off(a.off + (b if op == "+" else -b) * (a.esz or 1)), a.esz)
         if isinstance(b, Ptr) and isinstance(a, int) and op == "+":
             if not isinstance(b.off, int):
                 return b
-            return Ptr(b.base, b.off + a * (b.esz or 1), b.esz)
+            return Ptr(b.base, _wrap_off(b.off + a * (b.esz or 1)), b.esz)
         if isinstance(a, Ptr) and isinstance(b, Ptr):
             if a.base == b.base and isinstance(a.off, int) and isinstance(b.off, int):
                 if op == "-":
@@ -1296,6 +1324,10 @@ class Interp:
             n = args[2] if len(args) > 2 else U
             self.access(args[0], n, "w", e)
             self.access(args[1], n, "r", e)
+            if isinstance(n, int) and n > (1 << 26):
+                # a copy of more than 64 MB: no buffer of any rule is that large; the accesses are recorded (they are
+                # outside whatever they point into), the bytes are not moved one by one
+                return args[0]
             if isinstance(args[0], tuple) and args[0] and args[0][0] == "ADDR":
                 tgt_env = args[0][3] if len(args[0]) > 3 else env
                 val = U
@@ -1304,6 +1336,16 @@ class Interp:
                     v2 = mem(args[1].base, args[1].off, n)
                     if v2 is not None:
                         val = wrap(v2, args[0][2]) if isinstance(v2, int) else v2
+                        ct_ = clean_type(args[0][2])
+                        tb_ = UNSIGNED.get(ct_) or SIGNED.get(ct_)
+                        if isinstance(v2, int) and isinstance(tb_, int) and 0 < 8 * n < tb_:
+                            # fewer bytes than the object has: the low n bytes come from the source, the rest keep what they held
+                            old_ = tgt_env.get(args[0][1])
+                            if isinstance(old_, int):
+                                m_ = (1 << (8 * n)) - 1
+                                val = wrap((old_ & ~m_ & ((1 << tb_) - 1)) | (v2 & m_), args[0][2])
+                            else:
+                                val = U
                 if val is U and self.heap is not None and isinstance(args[1], Ptr) and isinstance(args[1].off, int) and isinstance(n, int) and 0 < n <= 8:
                     # bytes the program itself stored one by one (little-endian target)
                     bs = [self.heap.get((args[1].base, args[1].off + i)) for i in range(n)]
@@ -1353,6 +1395,18 @@ class Interp:
                     [(db, do + (z[1] - so if z[1] > so else 0), do + min(n, z[2] - so)) for z in getattr(self, "zeroed", [])
                      if z[0] == sb and z[1] < so + n and so < z[2]]
             return args[0]
+        if name in ("strlen", "__builtin_strlen") and self.heap is not None and args and isinstance(args[0], Ptr) and isinstance(args[0].off, int) \
+                and name not in self.hooks:
+            n_ = 0
+            while n_ < 4096:
+                b_ = self.heap.get((args[0].base, args[0].off + n_))
+                if not isinstance(b_, int):
+                    return U
+                if b_ & 0xFF == 0:
+                    self.access(args[0], n_ + 1, "r", e)
+                    return n_
+                n_ += 1
+            return U
         if name in ("memset", "__builtin_memset", "__memset_chk"):
             self.access(args[0], args[2] if len(args) > 2 else U, "w", e)
             if self.heap is not None and isinstance(args[0], Ptr) and isinstance(args[0].off, int) and len(args) > 2 \
